@@ -1474,8 +1474,12 @@ class TypeBlocks(ContainerOperand):
                 empty = full_for_fill(None, shape, fill_value)
                 if column_shift > 0:
                     block_head_iter = (empty,)
+                    if column_shift >= column_count: # every column is shifted out
+                        block_tail_iter = ()
                 elif column_shift < 0:
                     block_tail_iter = (empty,)
+                    if -column_shift >= column_count: # every column is shifted out
+                        block_head_iter = ()
 
             # NOTE: might consider not rolling when yielding an empty array
             for b in chain(block_head_iter, block_tail_iter):
